@@ -61,7 +61,7 @@ def cases(rng, tier):
         for red in rng.sample(RED, 3):
             out.append({"kind": "reduce", "a": a, "f": red, "dta": rng.choice(gens.DTYPES)})
         out.append({"kind": "reduce", "a": a, "f": "histogram", "dta": rng.choice(["int64", "uint8", "float64", "int16"]),
-                    "hist": {"bins": rng.choice([1, 2, 3, 5, None, None, [0, 1, 2], [0.5, 1.5], [0, 1, 3], [1, 2]]), "range": rng.choice([None, None, [0, 1], [1, 2], [0.5, 2.2], [0, 4], [-1, 1]])}})
+                    "hist": {"bins": rng.choice([1, 2, 3, 5, None, None, [0, 1, 2], [0.5, 1.5], [0, 1, 3], [1, 2]]), "range": rng.choice([None, None, [0, 1], [1, 2], [0.5, 2.2], [0, 4], [-1, 1]]), "density": rng.random() < 0.3}})
         # reductions over NEIGHBOURING extreme values (2**63-2, 2**63-1, ...): sums that leave the 64-bit range, means of huge values
         out.append({"kind": "reduce", "a": a, "f": rng.choice(["sum", "mean", "max", "np.sum", "np.mean"]), "dta": rng.choice(["int64", "uint64", "int32", "uint8", "float64"]), "vm": "near"})
         out.append({"kind": "sum", "a": a, "dta": "int64"})
@@ -108,6 +108,8 @@ def cases(rng, tier):
             k = rng.randint(1, 4)
             parts = [rlgen.array_random(rng, 8) for _ in range(k)]
             out.append({"kind": "concat", "parts": parts, "dta": rng.choice(["int64", "int64", "uint8", "float64", "bool"])})
+            if k >= 2:
+                out.append({"kind": "concat", "parts": parts, "dta": "int64", "pdts": [rng.choice(["int8", "uint8", "bool", "int64", "float64", "int32", "float32"]) for _ in parts]})
         if rng.random() < 0.3:
             out.append({"kind": "reduce", "a": a, "f": rng.choice(RED), "dta": rng.choice(gens.DTYPES)})
     return out
@@ -168,6 +170,8 @@ def _hist_kw(p):
     kw = {"bins": h["bins"]} if h["bins"] is not None else {}      # (None: numpy's default number of bins)
     if h.get("range") is not None:
         kw["range"] = tuple(h["range"])
+    if h.get("density"):
+        kw["density"] = True
     return kw
 
 
@@ -178,6 +182,16 @@ def _c(p):
         return p["c"]
     v = np.dtype(cf.split(":")[0]).type(p["c"])
     return np.array(v) if cf.endswith(":0d") else v
+
+
+def _pvals(p, i):
+    """the i-th piece of a concatenation: all pieces of one element type, or (pdts) each of its own -- later pieces then hold values
+    the first type cannot (numpy promotes)"""
+    if "pdts" not in p:
+        return _vals(p["parts"][i], p["dta"])
+    dt = p["pdts"][i]
+    v = _vals(p["parts"][i], "int64").astype(np.float64) + {"int64": 1000, "float64": 0.5, "int32": 300, "float32": 0.25}.get(dt, 0)
+    return v.astype(dt)
 
 
 def _vals(classes, dt, mode=True):
@@ -207,7 +221,7 @@ def run_impl(p):
     def f():
         with np.errstate(all="ignore"):
             if k == "concat":
-                rs = [RunLengthArray.from_array(_vals(a, p["dta"])) for a in p["parts"]]
+                rs = [RunLengthArray.from_array(_pvals(p, i)) for i in range(len(p["parts"]))]
                 return _rl(np.concatenate(rs), False)
             x = RunLengthArray.from_array(_vals(p["a"], p["dta"], p.get("vm", True)))
             xe, xv = x._events.copy(), np.asarray(x._values).copy()
@@ -264,7 +278,7 @@ def oracle(p):
         with np.errstate(all="ignore"), warnings.catch_warnings():
             warnings.simplefilter("ignore")
             if k == "concat":
-                return {"k": "obs", "decoded": canon(_z(np.concatenate([_vals(a, p["dta"]) for a in p["parts"]]))), "canonical": canon(True)}
+                return {"k": "obs", "decoded": canon(_z(np.concatenate([_pvals(p, i) for i in range(len(p["parts"]))]))), "canonical": canon(True)}
             a = _vals(p["a"], p["dta"], p.get("vm", True))
             if k == "sum":
                 return canon(int(a.sum()))
@@ -310,7 +324,7 @@ def lean_request(p):
         return {"op": "RL.binop", "kind": "sum", "a": p["a"], "f": "add"}
     if k == "reduce" and p["f"] == "histogram" and not p.get("hist"):
         return {"op": "RL.binop", "kind": "hist", "a": p["a"], "f": "add"}
-    if k == "concat":
+    if k == "concat" and "pdts" not in p:
         return {"op": "RL.binop", "kind": "concat", "a": [], "parts": p["parts"], "f": "add"}
     return None
 
@@ -359,8 +373,10 @@ def same(a, b):
         x, y = _num(a["v"]), _num(b["v"])
         return x == y or (x != x and y != y)
     if isinstance(a, dict) and isinstance(b, dict) and a.get("k") == "tup" and b.get("k") == "tup":
+        def eqn(u, v):
+            return u == v or (u != u and v != v)          # (a density over no sample is NaN on both sides)
         return len(a["v"]) == len(b["v"]) and all(
-            [_num(u) for u in x["v"]] == [_num(u) for u in y["v"]] for x, y in zip(a["v"], b["v"]))
+            len(x["v"]) == len(y["v"]) and all(eqn(_num(u), _num(v)) for u, v in zip(x["v"], y["v"])) for x, y in zip(a["v"], b["v"]))
     if isinstance(a, dict) and isinstance(b, dict) and a.get("k") == "obs" and b.get("k") == "obs":
         ks = (set(a) & set(b)) - {"k"}
         return bool(ks) and all(engine.same(a[k], b[k]) for k in ks)
